@@ -730,7 +730,7 @@ func ruleNApply(c *engine.Context) *report.Rule {
 			var inv *ssa.Call
 			for _, ins := range rg.nonNilSucc.Instrs {
 				if call, ok := ins.(*ssa.Call); ok {
-					if call.Call.IsInvoke() && call.Call.Method.Name() == p.Roles.RetrieveName && nextBase(call.Call.Value) == rg.base {
+					if call.Call.IsInvoke() && call.Call.Method.Name() == p.Roles.RetrieveName && nextBase(call.Call.Value) != nil && sameFieldPath(nextBase(call.Call.Value), rg.base) {
 						inv = call
 					}
 					break // the first call of the block decides
@@ -1091,4 +1091,26 @@ func nextGuardBase(p *load.Program, cond ssa.Value) ssa.Value {
 		return nil
 	}
 	return fa.X
+}
+
+// sameFieldPath: a and b are the same value, or loads of the same field of the same base
+// (recursively): `i.next` written twice re-loads the embedded node pointer.
+func sameFieldPath(a, b ssa.Value) bool {
+	for i := 0; i < 6; i++ {
+		if a == b {
+			return true
+		}
+		la, ok1 := a.(*ssa.UnOp)
+		lb, ok2 := b.(*ssa.UnOp)
+		if !ok1 || !ok2 || la.Op != token.MUL || lb.Op != token.MUL {
+			return false
+		}
+		fa, ok1 := la.X.(*ssa.FieldAddr)
+		fb, ok2 := lb.X.(*ssa.FieldAddr)
+		if !ok1 || !ok2 || fa.Field != fb.Field {
+			return false
+		}
+		a, b = fa.X, fb.X
+	}
+	return false
 }
